@@ -33,7 +33,7 @@ def read_contract(mode):
                         ['old(substrate.pos) >= len(substrate.data)'])},
         may_raise={'EndOfStreamError': True},
         loops={0: Loop(invariant=['substrate.pos == old(substrate.pos)'], havoc_fields=['substrate.pos'] +
-                       (['substrate.eof_signalled'] if mode == 'partial' else []),
+                       (['substrate.eof_signalled', 'substrate.none_seen'] if mode == 'partial' else []),
                        decl={}, yields_each_iteration=True)},
         external=['underrun-rewinds', 'exact-size', 'rest', 'ends-with-data'],
     )
